@@ -124,32 +124,126 @@ def check_writer_roles(ctx, fi, rule='R-ROLE/cache-writer'):
     return n
 
 
+def _dataset_data(fi, name):
+    """[(call, data expression)] of create_dataset(<name>, data=...)"""
+    out = []
+    for c in ast.walk(fi.node):
+        if isinstance(c, ast.Call) and isinstance(c.func, ast.Attribute) \
+                and c.func.attr == 'create_dataset' and c.args \
+                and isinstance(c.args[0], ast.Constant) \
+                and c.args[0].value == name:
+            for kw in c.keywords:
+                if kw.arg == 'data':
+                    out.append((c, kw.value))
+    return out
+
+
+def _gather_chain(fi, expr, at):
+    """follow a value back through `x = x[perm]`, `x = np.array(x)` to the
+    point where it is built; returns (perms, orderings, root defs) where
+    perms is the list of (identity of the permutation variable) applied,
+    and orderings the expressions that decide an order on the way
+    (arguments of argsort / sorted / .sort)"""
+    from ..core.cfg import cfg_of
+    from ..core.defuse import rd_of
+    cfg = cfg_of(fi)
+    rd = rd_of(fi)
+    perms = set()
+    orderings = []
+    seen = set()
+    work = [(expr, at)]
+    while work:
+        e, nid = work.pop()
+        if e is None or id(e) in seen:
+            continue
+        seen.add(id(e))
+        if isinstance(e, ast.Call):
+            nm = e.func.attr if isinstance(e.func, ast.Attribute) else (
+                e.func.id if isinstance(e.func, ast.Name) else None)
+            if nm in ('array', 'asarray', 'list', 'copy') and e.args:
+                work.append((e.args[0], nid))
+                continue
+            if nm in ('sorted', 'sort', 'argsort') and e.args:
+                orderings.append((e, e.args[0], nid))
+                work.append((e.args[0], nid))
+                continue
+            continue
+        if isinstance(e, (ast.ListComp, ast.GeneratorExp)):
+            for g in e.generators:
+                work.append((g.iter, nid))
+            continue
+        if isinstance(e, ast.Subscript) and isinstance(e.slice, ast.Name):
+            ds = frozenset(d.id for d in rd.reaching(e.slice.id, nid))
+            perms.add(ds)
+            for d in rd.reaching(e.slice.id, nid):
+                v = getattr(d, 'value', None)
+                if isinstance(v, ast.Call):
+                    nm = v.func.attr if isinstance(
+                        v.func, ast.Attribute) else (
+                        v.func.id if isinstance(v.func, ast.Name) else None)
+                    if nm in ('argsort', 'sorted') and v.args:
+                        orderings.append((v, v.args[0], d.node))
+            work.append((e.value, nid))
+            continue
+        if isinstance(e, ast.Name):
+            for d in rd.reaching(e.id, nid):
+                v = getattr(d, 'value', None)
+                if v is not None and d.kind == 'assign':
+                    work.append((v, d.node))
+            # in-place sorts of this name
+            for (mn, astn, how) in rd.mutations(e.id):
+                if how == 'sort' and isinstance(astn, ast.Call):
+                    orderings.append((astn, e, mn))
+            continue
+    return perms, orderings
+
+
 def check_cosort(ctx, fi, rule='R-ROLE/co-permutation'):
-    """the two index arrays of a cache group are permuted by one and the
-    same permutation"""
+    """the 'reference' and 'query' index arrays of a cache group are
+    permuted by one and the same permutation(s), and whatever decides the
+    order of the marker columns does not depend on where the genes sit in
+    the query (the mapping must not change when the query's columns are
+    permuted together with their names)"""
+    from ..core.cfg import cfg_of
+    from ..core.defuse import rd_of
+    from ..core.slicing import backward_slice
     ctx.touch(fi)
-    perms = dict()
-    for n in ast.walk(fi.node):
-        if isinstance(n, ast.Assign) and len(n.targets) == 1 \
-                and isinstance(n.targets[0], ast.Name) and isinstance(
-                    n.value, ast.Subscript) and isinstance(
-                        n.value.value, ast.Name) \
-                and n.targets[0].id == n.value.value.id \
-                and isinstance(n.value.slice, ast.Name):
-            perms[n.targets[0].id] = (n.value.slice.id, n)
-    ref = [k for k in perms if 'ref' in k]
-    qry = [k for k in perms if 'quer' in k]
-    if not ref and not qry:
-        ctx.ok(rule, f'{fi.qual}', fi.loc(),
-               'the index arrays are not re-ordered', nontrivial=False)
+    cfg = cfg_of(fi)
+    rd = rd_of(fi)
+    ref = _dataset_data(fi, 'reference')
+    qry = _dataset_data(fi, 'query')
+    if not ref or not qry:
+        ctx.fail(rule, f'{fi.qual}', fi.loc(),
+                 "the writer of the per-parent 'reference' / 'query' "
+                 'datasets was not found')
         return
-    ok = bool(ref) and bool(qry) and perms[ref[0]][0] == perms[qry[0]][0]
-    site = perms[(ref or qry)[0]][1]
-    ctx.ob(rule, f'{fi.qual}', fi.loc(site), ok,
+    chains = {}
+    for nm, lst in (('reference', ref), ('query', qry)):
+        c, e = lst[0]
+        ns = [x for x in cfg.node_of_expr(c) if x.id in rd.live]
+        chains[nm] = _gather_chain(fi, e, ns[0].id if ns else None)
+    pr, pq = chains['reference'][0], chains['query'][0]
+    ok = pr == pq
+    ctx.ob(rule, f'{fi.qual}', fi.loc(ref[0][0]), ok,
            'reference and query positions are re-ordered by the same '
-           f'permutation `{perms[ref[0]][0]}`' if ok else
+           f'permutation ({len(pr)} gather step(s))' if ok else
            'the reference and query position arrays of a group are not '
-           'permuted together ('
-           + ', '.join(f'{k}[{v[0]}]' for k, v in sorted(perms.items()))
-           + '): column i of the query no longer is the gene of column i '
-           'of the reference')
+           'permuted together: column i of the query no longer is the '
+           'gene of column i of the reference')
+    # what decides the order
+    bad = None
+    n_ord = 0
+    for nm in ('reference', 'query'):
+        for (site, keyexpr, nid) in chains[nm][1]:
+            n_ord += 1
+            sl = backward_slice(fi, keyexpr, nid)
+            if 'query_gene_names' in sl.params:
+                bad = (site, keyexpr)
+    ctx.ob('R-PROV/marker-order-independent-of-query', f'{fi.qual}',
+           fi.loc(bad[0] if bad else ref[0][0]), bad is None,
+           f'the {n_ord} ordering step(s) on the way to the cache sort by '
+           'reference position / name only' if bad is None else
+           f'`{unparse(bad[0])[:70]}` orders the marker columns by a key '
+           'that depends on the positions of the genes in the query: '
+           'permuting the query columns (with their names) changes which '
+           'markers a bootstrap draw selects, hence the mapping')
